@@ -10,6 +10,7 @@ import (
 	"os"
 	"runtime"
 	"strings"
+	"sync"
 	"testing"
 	"unicode"
 	"unsafe"
@@ -231,4 +232,81 @@ func mutate(s string, r *vmon.Rng) string {
 	default:
 		return s[:len(s)-1]
 	}
+}
+
+// TestC10Concurrent: goroutines look up different names at the same time (parallel tests each applying an
+// unexported mock do this); every answer is checked like in the sequential pass.
+func TestC10Concurrent(t *testing.T) {
+	rep := vmon.NewReport("C10")
+	defer rep.Write()
+	names, err := ownFuncNames()
+	if err != nil || len(names) < 100 {
+		rep.Inconclusive = "cannot enumerate functions"
+		return
+	}
+	// only names whose sequential lookup is exact
+	var good []string
+	want := map[string]uintptr{}
+	for _, n := range names {
+		if a, err := findFunc(n); err == nil {
+			if f := runtime.FuncForPC(a); f != nil && f.Entry() == a {
+				good = append(good, n)
+				want[n] = a
+			}
+		}
+		if len(good) >= 400 {
+			break
+		}
+	}
+	G := 8
+	per := vmon.EnvInt("VERIF_C10_CONC", 20000)
+	bar := vmon.NewSpinBarrier(G)
+	var wg sync.WaitGroup
+	for g := 0; g < G; g++ {
+		wg.Add(1)
+		go func(g int) {
+			defer wg.Done()
+			r := vmon.NewRng(vmon.Seed(), uint64(10000+g))
+			bar.Wait()
+			bad := 0
+			for i := 0; i < per && bad < 3; i++ {
+				// few hot names so that different goroutines alternate between them
+				n := good[r.Intn(8)+8*(i%2)]
+				if r.Chance(1, 8) {
+					n = good[r.Intn(len(good))]
+				}
+				a, err := findFunc(n)
+				if err != nil || a != want[n] {
+					bad++
+					rep.Violate("C10/concurrent-lookup-wrong", fmt.Sprintf("concurrent FindFuncByName(%q) = %#x (%v), sequential lookup gave %#x (%s)", n, a, err, want[n], fname(runtime.FuncForPC(a))), map[string]interface{}{"name": n})
+				}
+			}
+			rep.Eval(int64(per))
+		}(g)
+	}
+	wg.Wait()
+	rep.Class("concurrent/functions")
+	// variables concurrently as well
+	var vn []string
+	for n := range vars.Addrs {
+		vn = append(vn, n)
+	}
+	for g := 0; g < G; g++ {
+		wg.Add(1)
+		go func(g int) {
+			defer wg.Done()
+			r := vmon.NewRng(vmon.Seed(), uint64(20000+g))
+			for i := 0; i < per/10; i++ {
+				n := vn[r.Intn(len(vn))]
+				a, err := findVar(varPkg + "." + n)
+				if err == nil && a != uintptr(vars.Addrs[n]) {
+					rep.Violate("C10/concurrent-lookup-wrong", fmt.Sprintf("concurrent FindVarByName(%s) = %#x, &%s = %#x", n, a, n, uintptr(vars.Addrs[n])), nil)
+					return
+				}
+			}
+			rep.Eval(int64(per / 10))
+		}(g)
+	}
+	wg.Wait()
+	rep.Class("concurrent/variables")
 }
